@@ -221,8 +221,9 @@ def witnesses(chk):
     for kb in ([0xff, 0xfe, 0x41], [0xe9], list(b'not base64 at all!'), [0xc3, 0x28]):
         cases.append({'op': 'ws_handshake', 'headers': {'connection': 'Upgrade', 'upgrade': 'websocket', 'version': '13', 'key': 'octets', 'key_bytes': kb}})
     # after the upgrade: bytes arriving in several TCP segments reach a handler that uses read_exact, and its vectored reply comes back intact
-    for segs in ([12], [3, 5, 4], [6, 6], [1] * 12):
-        c_ = {'op': 'ws_stream', 'segments': segs}
+    for segs in ([12], [3, 5, 4], [6, 6], [1] * 12, 'hidden'):
+        # 'hidden': the API's only channel is an unpublished one - it is still a channel endpoint and gets the connection
+        c_ = {'op': 'ws_stream', 'segments': [5, 7], 'hidden': True} if segs == 'hidden' else {'op': 'ws_stream', 'segments': segs}
         r_ = replay([c_])[0]
         chk.replayed += 1
         if not r_.get('as_specified'): chk.counterexample(f'bytes after the upgrade sent in segments {segs}: {r_}', c_, True, role='raw-stream:wire')
